@@ -591,6 +591,25 @@ class K(Middle):
 OPS = [("kcall", "st", 3), ("kcall", "cm", 4), ("rawtype", "st"), ("rawtype", "cm"), ("new", (1,), {{}}), ("call", "st", 7), ("call", "st", 7, 5),
        ("call", "cm", 8), ("getattr", "z"), ("call", "get", 1), ("call", "extra"), ("kcall", "st", 9), ("isinstance",)]
 ''',
+    "methods-awaiting-and-calling-each-other": '''
+{deco}
+class K{base}:
+    def __init__(self):
+        self.v = 1
+    async def inner(self, a):
+        return ("inner", a, self.v)
+    async def outer(self, a):
+        return ("outer", await self.inner(a))
+    async def outermost(self, a):
+        return ("outermost", await self.outer(a), await self.inner(a + 1))
+    def get(self):
+        return self.v
+    def twice(self):
+        return (self.get(), self.get())
+    async def mixed(self):
+        return (self.twice(), await self.inner(0))
+OPS = [("new", (), {{}}), ("acall", "inner", 1), ("acall", "outer", 2), ("acall", "outermost", 3), ("call", "twice"), ("acall", "mixed")]
+''',
     "context-manager-and-iter": '''
 {deco}
 class K{base}:
@@ -661,6 +680,8 @@ def run_ops(mod, ops) -> List[Any]:
                 res = getattr(target, op[1])(*op[2:])
                 if isinstance(res, K):
                     res = ("K-instance", sorted(getattr(res, "__dict__", {}).items(), key=str))
+            elif op[0] == "acall":
+                res = probe.drive(getattr(inst, op[1])(*op[2:]))
             elif op[0] == "kcall":
                 res = getattr(K, op[1])(*op[2:])
             elif op[0] == "rawtype":
